@@ -8,6 +8,7 @@ import (
 	"sort"
 	"strings"
 	"sync"
+	"sync/atomic"
 	"testing"
 	"testing/synctest"
 	"time"
@@ -82,6 +83,18 @@ var msAlphabet = []msReq{
 	{"oic-b", "GET", "/b", "", "only-if-cached"},
 	{"post-v", "DELETE", "/v", "", ""},
 	{"swr-v-b", "GET", "/v", "b", ""},
+	{"variant-v-new2", "GET", "/v", "d", ""},
+	{"reval-v-e-304", "GET", "/v", "e", ""},
+	{"post-c", "POST", "/c", "", ""},
+	{"put-d", "PUT", "/d", "", ""},
+}
+
+// msKeyPairs are always part of the quick tier: overlapping stores of two
+// variants, validations (foreground and background) overlapping a store or an
+// invalidation of the same resource.
+var msKeyPairs = [][2]string{
+	{"variant-v-new", "variant-v-new2"}, {"reval-v-e-304", "variant-v-new"}, {"swr-v-b", "variant-v-new"},
+	{"reval-c-304", "post-c"}, {"swr-b-304", "post-b"}, {"replace-d-200", "put-d"}, {"reval-v-e-304", "post-v"}, {"swr-v-b", "post-v"},
 }
 
 type msResult struct {
@@ -143,6 +156,12 @@ func msRunSchedule(reqs []msReq, vec []int) (branch []int, trace []string, resul
 					return Render(&RespSpec{Status: 304, ETag: etag, Vary: []string{"X-A"}, Extra: extra}, uc.Enter, uc.Serial)
 				}
 			}
+			if req.Header.Get("X-A") == "e" {
+				rs.CC = []string{"max-age=10"}
+				if uc.Conditional() {
+					return Render(&RespSpec{Status: 304, ETag: etag, Vary: []string{"X-A"}, CC: []string{"max-age=100000"}, Extra: extra}, uc.Enter, uc.Serial)
+				}
+			}
 		}
 		_ = epoch
 		return Render(&rs, uc.Enter, uc.Serial)
@@ -159,8 +178,9 @@ func msRunSchedule(reqs []msReq, vec []int) (branch []int, trace []string, resul
 	dsn, release := sim.RegisterConn(store)
 	defer release()
 	rt := httpcache.NewTransport(dsn, httpcache.WithUpstream(origin))
+	var exID atomic.Int64 // exchange ids: below 100 = pre-population (their bodies are the old generation)
 	do := func(r msReq, res *msResult) {
-		req, _ := http.NewRequestWithContext(sim.WithExchange(context.Background(), &sim.Exchange{ID: 0}), r.Method, "http://a.example"+r.Path, nil)
+		req, _ := http.NewRequestWithContext(sim.WithExchange(context.Background(), &sim.Exchange{ID: int(exID.Add(1))}), r.Method, "http://a.example"+r.Path, nil)
 		if r.XA != "" {
 			req.Header.Set("X-A", r.XA)
 		}
@@ -198,10 +218,11 @@ func msRunSchedule(reqs []msReq, vec []int) (branch []int, trace []string, resul
 	}
 	// pre-populate sequentially (gates off), then let the short-lived entries go stale
 	for _, r := range []msReq{{"", "GET", "/a", "", ""}, {"", "GET", "/b", "", ""}, {"", "GET", "/b2", "", ""}, {"", "GET", "/c", "", ""}, {"", "GET", "/d", "", ""},
-		{"", "GET", "/v", "a", ""}, {"", "GET", "/v", "b", ""}} {
+		{"", "GET", "/v", "a", ""}, {"", "GET", "/v", "b", ""}, {"", "GET", "/v", "e", ""}} {
 		do(r, nil)
 	}
 	prepop = false
+	exID.Store(100)
 	time.Sleep(20 * time.Second)
 	synctest.Wait()
 	// clients, started one at a time so that their names are stable
@@ -283,14 +304,24 @@ func msRunSchedule(reqs []msReq, vec []int) (branch []int, trace []string, resul
 	}
 	// final sequential probe of every resource: what does the cache serve now?
 	final = map[string]string{}
-	for _, r := range []msReq{{"", "GET", "/a", "", ""}, {"", "GET", "/b", "", "only-if-cached"}, {"", "GET", "/v", "a", "only-if-cached"}, {"", "GET", "/v", "b", "only-if-cached"}, {"", "GET", "/v", "c", "only-if-cached"}, {"", "GET", "/e", "", "only-if-cached"}} {
+	for _, r := range []msReq{{"", "GET", "/a", "", ""}, {"", "GET", "/b", "", "only-if-cached"}, {"", "GET", "/v", "a", "only-if-cached"}, {"", "GET", "/v", "b", "only-if-cached"}, {"", "GET", "/v", "c", "only-if-cached"}, {"", "GET", "/e", "", "only-if-cached"},
+		{"", "GET", "/v", "d", "only-if-cached"}, {"", "GET", "/v", "e", "only-if-cached"}, {"", "GET", "/c", "", "only-if-cached"}, {"", "GET", "/d", "", "only-if-cached"}, {"", "GET", "/b2", "", "only-if-cached"}} {
 		res := &msResult{req: r}
 		do(r, res)
 		gen, xres, st := "", "", ""
 		if res.header != nil {
 			gen, xres, st = res.header.Get("X-Gen"), res.header.Get("X-Res"), res.header.Get("X-Httpcache-Status")
 		}
-		final[r.Path+"|"+r.XA] = fmt.Sprintf("%d %s gen=%s res=%s intact=%v", res.status, st, gen, xres, sim.ParseBody(res.body).Intact || res.status == 504)
+		bodyGen := "none"
+		if bi := sim.ParseBody(res.body); bi.HasTok {
+			// bodies made by the pre-population calls are the old generation
+			bodyGen = "new"
+			var ex, idx int
+			if n, _ := fmt.Sscanf(bi.Serial, "%d.%d", &ex, &idx); n == 2 && ex < 100 {
+				bodyGen = "old"
+			}
+		}
+		final[r.Path+"|"+r.XA] = fmt.Sprintf("%d %s gen=%s body=%s res=%s intact=%v", res.status, st, gen, bodyGen, xres, sim.ParseBody(res.body).Intact || res.status == 504)
 	}
 	return
 }
@@ -318,7 +349,14 @@ func TestC16ModeS(t *testing.T) {
 		// quick: 20 seeded pairs
 		rng := r.Rand(0)
 		rng.Shuffle(len(pairs), func(i, j int) { pairs[i], pairs[j] = pairs[j], pairs[i] })
-		pairs = pairs[:20]
+		pairs = pairs[:14]
+		byName := map[string]int{}
+		for i, a := range msAlphabet {
+			byName[a.Name] = i
+		}
+		for _, kp := range msKeyPairs {
+			pairs = append(pairs, pair{byName[kp[0]], byName[kp[1]]})
+		}
 	}
 	r.SetExhaustive(false)
 	for pi, p := range pairs {
@@ -455,8 +493,36 @@ func msJudge(r *run.Runner, sig string, reqs []msReq, results []*msResult, final
 		if !strings.HasPrefix(v, "504") && !strings.Contains(v, "res="+key) {
 			r.Violation("stored-wrong-resource", sig, fmt.Sprintf("after schedule [%s] the store serves %s for %s", tr, v, key), nil)
 		}
-		if postDone[path] && strings.Contains(v, "gen=old") && !strings.HasPrefix(v, "504") {
+		if postDone[path] && (strings.Contains(v, "gen=old") || strings.Contains(v, "body=old")) && !strings.HasPrefix(v, "504") {
 			r.Violation("invalidated-entry-back", sig, fmt.Sprintf("after schedule [%s] a response stored before the successful unsafe request to %s is served again unvalidated: %s", tr, path, v), nil)
+		}
+	}
+	// what a request of the tuple fetched from the origin and stored is still
+	// there afterwards, unless an unsafe request of the tuple hit the resource
+	for _, res := range results {
+		q := res.req
+		if q.Method != "GET" || res.header == nil || res.status != 200 || q.CC != "" || postDone[q.Path] {
+			continue
+		}
+		if st := res.header.Get("X-Httpcache-Status"); st != "MISS" {
+			continue
+		}
+		key := q.Path + "|" + q.XA
+		if v, ok := final[key]; ok && strings.HasPrefix(v, "504") {
+			r.Violation("stored-response-lost", sig, fmt.Sprintf("%s fetched and stored %s (MISS, cacheable for a day) but after schedule [%s] it is no longer in the store: %s", q.Name, key, tr, v), nil)
+		}
+	}
+	// entries that were in the store before and that no request of the tuple
+	// replaced or invalidated are still there (another variant's index update
+	// must not drop them)
+	touched := map[string]bool{}
+	for _, q := range reqs {
+		touched[q.Path] = touched[q.Path] || q.Method != "GET"
+	}
+	for _, key := range []string{"/v|a", "/a|"} {
+		path := key[:strings.IndexByte(key, '|')]
+		if v, ok := final[key]; ok && !touched[path] && strings.HasPrefix(v, "504") {
+			r.Violation("stored-response-lost", sig+",bystander", fmt.Sprintf("after schedule [%s] the long-lived stored response %s, which no request of the tuple replaced or invalidated, is gone: %s", tr, key, v), nil)
 		}
 	}
 }
